@@ -124,6 +124,9 @@ def check(case, ctx):
     try:
         L_before, L_rows, L_after = evaluate(specs, desc0, tables0, ctx, seq=case['seq'])
     except Exception as e:
+        why = gp.data_dependent_rejection(e)
+        if why:
+            return Info(rejected=True, classes=['rejected:' + why])
         raise unexpected(e, 'lazy run of ' + '/'.join(s['k'] for s in specs))
     # ---- (a)+(b) finest split: one step at a time on materialised data; user callables by plain Python
     d, t = jcopy(desc0), copy.deepcopy(tables0)
